@@ -49,6 +49,8 @@ type Engine struct {
 	intrinsics map[string]intrinsicFn
 	roGlobals  map[string]bool
 	Variants   []*BoundContract
+	Lemmas     []*BoundContract
+	recKinds   map[*specFunc][]string
 	ghostNames map[string]int
 	parenMarks map[token.Pos]string
 	Errors     []string
@@ -214,7 +216,22 @@ func (e *Engine) bind() error {
 			if g.Kind == "global" {
 				f := strings.Fields(g.Text)
 				if len(f) == 2 && f[1] == "readonly" {
-					e.roGlobals[pkg.PkgPath+"."+f[0]] = true
+					key := pkg.PkgPath + "." + f[0]
+					if i := strings.Index(f[0], "."); i > 0 {
+						// a variable of another package: "global scan.Semicolon readonly" (alias from the imports)
+						for _, im := range cf.Imports {
+							fi := strings.Fields(im)
+							path := strings.Trim(fi[len(fi)-1], "\"")
+							alias := path[strings.LastIndex(path, "/")+1:]
+							if len(fi) == 2 {
+								alias = fi[0]
+							}
+							if alias == f[0][:i] {
+								key = path + "." + f[0][i+1:]
+							}
+						}
+					}
+					e.roGlobals[key] = true
 				}
 			}
 		}
@@ -225,11 +242,30 @@ func (e *Engine) bind() error {
 			}
 			bc := &BoundContract{FC: fc, Pkg: pkg, Decl: fd, Locals: map[*types.Var]string{}, Inv: map[int][]ClauseExpr{},
 				Dec: map[int]ClauseExpr{}, LoopMod: map[int][]ast.Expr{}, LoopSplit: map[int][]ast.Expr{}, Unroll: map[int]int{}, HasLoop: map[int]bool{},
-				FreshResult: map[int]bool{}, Known: map[string]string{}}
+				FreshResult: map[int]bool{}, Known: map[string]string{}, UseLemma: map[int][]*ast.FuncLit{}}
 			obj := pkg.TypesInfo.Defs[fd.Name].(*types.Func)
 			bc.Sig = obj.Type().(*types.Signature)
 			if fc.Spec {
-				e.specFuncs[obj] = &specFunc{bc: bc, decl: fd, pkg: pkg}
+				sf := &specFunc{bc: bc, decl: fd, pkg: pkg}
+				e.specFuncs[obj] = sf
+				if fc.Lemma {
+					bc.Lemma = sf
+					sf.from = decls[fc.Name+"__from"]
+					if ud := decls[fc.Name+"__uses"]; ud != nil {
+						sf.usesDecl = ud
+						for _, st := range ud.Body.List {
+							if es, ok := st.(*ast.ExprStmt); ok {
+								if call, ok := es.X.(*ast.CallExpr); ok && len(call.Args) == 2 {
+									if fl, ok := call.Args[1].(*ast.FuncLit); ok {
+										sf.uses = append(sf.uses, fl)
+									}
+								}
+							}
+						}
+					}
+					e.Lemmas = append(e.Lemmas, bc)
+					e.ByKey[pkg.PkgPath+".lemma "+fc.Name] = bc
+				}
 				continue
 			}
 			if r := bc.Sig.Recv(); r != nil {
@@ -413,7 +449,7 @@ func (e *Engine) bindClauses(bc *BoundContract) error {
 	for i := range fc.Clauses {
 		cl := &fc.Clauses[i]
 		switch cl.Kind {
-		case "requires", "ensures", "invariant", "decreases", "modifies", "fresh", "assert", "assume", "split", "appends", "appendsAll", "copies", "mapStore", "mapDelete":
+		case "requires", "ensures", "invariant", "decreases", "modifies", "fresh", "assert", "assume", "split", "appends", "appendsAll", "copies", "mapStore", "mapDelete", "uselemma":
 			if ci >= len(calls) {
 				return fmt.Errorf("%s:%d: clause/statement mismatch", fc.File, cl.Line)
 			}
@@ -436,6 +472,11 @@ func (e *Engine) bindClauses(bc *BoundContract) error {
 				bc.MapOps = append(bc.MapOps, []ast.Expr{call.Args[0], call.Args[1]})
 			case "copies":
 				bc.Copies = append(bc.Copies, [3]ast.Expr{call.Args[0], call.Args[1], call.Args[2]})
+			case "uselemma":
+				bc.UseLemma[cl.Loop] = append(bc.UseLemma[cl.Loop], call.Args[1].(*ast.FuncLit))
+				if cl.Loop >= 0 {
+					bc.HasLoop[cl.Loop] = true
+				}
 			case "split":
 				if cl.Loop >= 0 {
 					bc.LoopSplit[cl.Loop] = append(bc.LoopSplit[cl.Loop], call.Args[1:]...)
@@ -596,6 +637,9 @@ type FuncReport struct {
 
 // VerifyFunc generates the obligations of one function under contract.
 func (e *Engine) VerifyFunc(bc *BoundContract) (rep *FuncReport) {
+	if bc.Lemma != nil {
+		return e.VerifyLemma(bc)
+	}
 	fn := bc.Fn
 	rep = &FuncReport{Key: bc.KeyString(), Fn: fn.String(), Contract: bc}
 	u := e.NewUnit(fn, bc)
@@ -636,6 +680,7 @@ func (e *Engine) VerifyFunc(bc *BoundContract) (rep *FuncReport) {
 		pre = append(pre, t)
 		u.assumeGlobal(t)
 	}
+	u.assumeLemmas(bc, nil, st, -1, nil)
 	// vacuity guard: the precondition (and all background assumptions) must be satisfiable
 	u.addObl(&Obligation{Kind: "cover", Name: "requires satisfiable", PC: c.True, Goal: c.False, Expect: "sat", Pos: e.Fset.Position(fn.Pos())})
 	if bc.HasModifies {
@@ -782,6 +827,7 @@ func (e *Engine) SortedContracts() []*BoundContract {
 		}
 	}
 	out = append(out, e.Variants...)
+	out = append(out, e.Lemmas...)
 	sort.Slice(out, func(i, j int) bool {
 		a, b := out[i], out[j]
 		if a.Pkg.PkgPath != b.Pkg.PkgPath {
@@ -921,4 +967,112 @@ func freshTerm(c *Ctx, t *Term) *Term {
 		return c.True
 	}
 	return c.False
+}
+
+// VerifyLemma proves a lemma  P(params..., k)  by induction on its last parameter k:
+//   base:  P(params, b)                          b = the "from" expression
+//   step:  up:   k >= b && P(params, k)  ==>  P(params, k+1)
+//          down: k <= b && P(params, k)  ==>  P(params, k-1)
+// for arbitrary parameter values and an arbitrary memory (recursive spec functions unfold at the ground terms
+// b, k, k+-1). Together these give  forall k >= b (<= b): P, which is what a "uselemma" clause assumes; P is written
+// with its own range guard, so that it holds trivially on the other side of b.
+func (e *Engine) VerifyLemma(bc *BoundContract) (rep *FuncReport) {
+	sd := bc.Lemma
+	rep = &FuncReport{Key: bc.KeyString(), Fn: "lemma " + sd.decl.Name.Name, Contract: bc}
+	u := e.NewUnit(nil, bc)
+	u.FnName = bc.Pkg.PkgPath + ".lemma " + sd.decl.Name.Name
+	rep.Unit = u
+	defer func() {
+		if r := recover(); r != nil {
+			switch x := r.(type) {
+			case Unsupported:
+				rep.Err = x.Error()
+			case StaleContract:
+				rep.Err = x.Error()
+				rep.Stale = true
+			case string:
+				rep.Err = "contract error: " + x
+			default:
+				panic(r)
+			}
+		}
+	}()
+	c := u.C
+	st := &State{pc: c.True, cells: map[*ssa.Alloc]Val{}, mems: map[string]*Mem{}}
+	u.entryState = st
+	var names []*types.Var
+	for _, f := range sd.decl.Type.Params.List {
+		for _, n := range f.Names {
+			names = append(names, sd.pkg.TypesInfo.Defs[n].(*types.Var))
+		}
+	}
+	if len(names) == 0 || sd.from == nil {
+		panic("lemma needs an induction parameter and an 'induction up|down from' clause")
+	}
+	kv := names[len(names)-1]
+	if w, _, ok := intWidth(kv.Type()); !ok || w != 64 {
+		panic("the induction parameter (last) of a lemma must be an int")
+	}
+	vars := map[*types.Var]Val{}
+	for _, v := range names[:len(names)-1] {
+		vars[v] = u.symVal("p_"+v.Name(), v.Type(), true)
+	}
+	ret := sd.decl.Body.List[0].(*ast.ReturnStmt).Results[0]
+	evalAt := func(k *Term) *Term {
+		env := &specEnv{u: u, bc: sd.bc, st: st, old: nil, vars: map[*types.Var]Val{}}
+		for a, b := range vars {
+			env.vars[a] = b
+		}
+		env.vars[kv] = k
+		return env.evalBool(ret)
+	}
+	// the "from" expression over the other parameters
+	fenv := &specEnv{u: u, bc: sd.bc, st: st, vars: map[*types.Var]Val{}}
+	i := 0
+	for _, f := range sd.from.Type.Params.List {
+		for _, n := range f.Names {
+			if i < len(names)-1 {
+				fenv.vars[sd.pkg.TypesInfo.Defs[n].(*types.Var)] = vars[names[i]]
+			}
+			i++
+		}
+	}
+	b := fenv.evalTerm(sd.from.Body.List[0].(*ast.ReturnStmt).Results[0])
+	pos := e.Fset.Position(sd.decl.Pos())
+	k0 := c.Var("ind_k", BV(64))
+	// lemmas declared earlier that this proof uses (acyclic by declaration order)
+	for _, fl := range sd.uses {
+		env := &specEnv{u: u, bc: sd.bc, st: st, vars: map[*types.Var]Val{}}
+		j := 0
+		for _, f := range sd.usesDecl.Type.Params.List {
+			for _, n := range f.Names {
+				pv := sd.pkg.TypesInfo.Defs[n].(*types.Var)
+				if j < len(names)-1 {
+					env.vars[pv] = vars[names[j]]
+				} else {
+					env.vars[pv] = k0
+				}
+				j++
+			}
+		}
+		lk := c.BoundVar("lk", BV(64))
+		env.vars[sd.pkg.TypesInfo.Defs[fl.Type.Params.List[0].Names[0]].(*types.Var)] = lk
+		u.assumeGlobal(c.Forall([]*Term{lk}, env.evalBool(fl.Body.List[0].(*ast.ReturnStmt).Results[0])))
+		u.Trusted["lemma used in a lemma proof: "+env.show(fl.Body.List[0].(*ast.ReturnStmt).Results[0])] = true
+	}
+	u.addObl(&Obligation{Kind: "cover", Name: "lemma hypotheses satisfiable", PC: c.True, Goal: c.False, Expect: "sat", Pos: pos})
+	u.addObl(&Obligation{Kind: "lemma.base", Name: sd.decl.Name.Name + " at " + strings.TrimSpace(bc.FC.IndFrom), PC: c.True, Goal: evalAt(b), Pos: pos})
+	one := c.BVu(1, 64)
+	var rng *Term
+	var next *Term
+	if bc.FC.IndDir == "up" {
+		rng = c.And(c.SLe(b, k0), c.SLt(k0, c.BVi(1<<62, 64)))
+		next = c.Add(k0, one)
+	} else {
+		rng = c.And(c.SLe(k0, b), c.SLt(c.BVi(-(1<<62), 64), k0))
+		next = c.Sub(k0, one)
+	}
+	hyp := evalAt(k0)
+	u.addObl(&Obligation{Kind: "lemma.step", Name: sd.decl.Name.Name + " induction " + bc.FC.IndDir, PC: c.And(rng, hyp), Goal: evalAt(next), Pos: pos})
+	return rep
 }
